@@ -255,7 +255,11 @@ def build_db_session(sid, inp, lookups, letters=AA, with_internal=True):
     if eng == "hash":
         kw["max_edits"] = inp["k"]
     first = True
-    for q in [inp["seqs2"]] + list(lookups):
+    for item in [inp["seqs2"]] + list(lookups):
+        # a further lookup is a query list, or (query list, max_edits) for LookupDB whose radius is per lookup
+        q, k_this = (item if (isinstance(item, (list, tuple)) and len(item) == 2 and isinstance(item[1], int) and not isinstance(item[0], int)) else (item, inp["k"]))
+        if eng == "hash":
+            kw["max_edits"] = k_this
         qs = [dec(x, letters) for x in q]
         before = _snapshot(db)
         raised, ret, dense = None, [], []
@@ -265,7 +269,7 @@ def build_db_session(sid, inp, lookups, letters=AA, with_internal=True):
             raised = e
         changed = _snapshot(db) != before
         if not first:
-            events.append(dict(op="NewLookup", seqs2=q, db_changed=False))
+            events.append(dict(op="NewLookup", seqs2=q, k=k_this, db_changed=False))
         events.append(dict(op="Join", raised=raised is not None, ret=ret, db_changed=changed,
                            exc=(type(raised).__name__ + ": " + str(raised)[:200]) if raised is not None else ""))
         try:
